@@ -10,6 +10,12 @@ NOT_APPLICABLE = {
 }
 
 PLAN = {
+    "C19": dict(
+        verus=[], kani=["@wire"], level="translation_validation",
+        claim="every #[derive(EtherCrabWire*)] type in /repo/src: the derive OUTPUT is validated against a layout computed independently from the "
+              "#[wire] attributes, for all byte strings (Kani, loop-free, complete per type)",
+        note="the proc-macro program itself is not verified; generic types and write-only derives are skipped and listed",
+    ),
     "C17": dict(
         verus=[], kani=["ports", "dc"], level="proof",
         claim="4-port functions of Ports proved against closed-form specs for all 16 activity patterns x all u32 times x all downstream assignments "
